@@ -115,38 +115,41 @@ type failure struct {
 	TraceHash  string    `json:"trace_hash"`
 	ShrinkRuns int       `json:"shrink_runs"`
 	Repro      string    `json:"repro,omitempty"`
+	// RuntimeChoice: the run contains select statements with several ready cases, which the Go runtime resolves at random
+	RuntimeChoice bool `json:"runtime_choice,omitempty"`
 }
 
 type workerOut struct {
-	Scenario    string              `json:"scenario"`
-	Property    string              `json:"property"`
-	Seed        int64               `json:"seed"`
-	From        int64               `json:"from"`
-	Runs        int64               `json:"runs"`
-	Nontrivial  int64               `json:"nontrivial_runs"`
-	Distinct    int64               `json:"distinct_nontrivial"`
-	DistinctAll int64               `json:"distinct_all"`
-	Steps       int64               `json:"steps"`
-	Switches    int64               `json:"switches"`
-	Overlaps    int64               `json:"overlaps"`
-	Truncated   int64               `json:"truncated"`
-	SimTimeNs   int64               `json:"sim_time_ns"`
-	Faults      map[string]int64    `json:"faults"`
-	Hits        map[string]int64    `json:"hits"`
-	Known       map[string]int64    `json:"known"`
-	KnownSample map[string]*failure `json:"known_sample"`
-	Failures    []*failure          `json:"failures"`
-	Samples     []any               `json:"samples"`
-	WallS       float64             `json:"wall_s"`
-	Rechecked   int64               `json:"determinism_rechecks"`
-	Nondet      int64               `json:"determinism_mismatches"`
-	Real        []string            `json:"real"`
-	Stub        []string            `json:"stub"`
-	Doc         string              `json:"doc"`
-	Cases       []string            `json:"cases"`
-	CaseTotal   int                 `json:"case_total"`
-	Info        any                 `json:"info,omitempty"`
-	Observed    map[string]int64    `json:"observed_other_classes"`
+	Scenario      string              `json:"scenario"`
+	Property      string              `json:"property"`
+	Seed          int64               `json:"seed"`
+	From          int64               `json:"from"`
+	Runs          int64               `json:"runs"`
+	Nontrivial    int64               `json:"nontrivial_runs"`
+	Distinct      int64               `json:"distinct_nontrivial"`
+	DistinctAll   int64               `json:"distinct_all"`
+	Steps         int64               `json:"steps"`
+	Switches      int64               `json:"switches"`
+	Overlaps      int64               `json:"overlaps"`
+	Truncated     int64               `json:"truncated"`
+	SimTimeNs     int64               `json:"sim_time_ns"`
+	Faults        map[string]int64    `json:"faults"`
+	Hits          map[string]int64    `json:"hits"`
+	Known         map[string]int64    `json:"known"`
+	KnownSample   map[string]*failure `json:"known_sample"`
+	Failures      []*failure          `json:"failures"`
+	Samples       []any               `json:"samples"`
+	WallS         float64             `json:"wall_s"`
+	Rechecked     int64               `json:"determinism_rechecks"`
+	Nondet        int64               `json:"determinism_mismatches"`
+	RuntimeChoice int64               `json:"runtime_choice_runs"`
+	Real          []string            `json:"real"`
+	Stub          []string            `json:"stub"`
+	Doc           string              `json:"doc"`
+	Cases         []string            `json:"cases"`
+	CaseTotal     int                 `json:"case_total"`
+	Info          any                 `json:"info,omitempty"`
+	Observed      map[string]int64    `json:"observed_other_classes"`
 }
 
 func TestMain(m *testing.M) {
@@ -230,7 +233,11 @@ func TestSim(t *testing.T) {
 		res := execute(t, scn, tape, wantTrace)
 		out.Runs++
 		if *fHashes != "" {
-			fmt.Fprintf(&hashes, "%d %016x %d\n", i, res.TraceHash, res.Steps)
+			if res.RuntimeChoice {
+				fmt.Fprintf(&hashes, "%d runtime-choice\n", i)
+			} else {
+				fmt.Fprintf(&hashes, "%d %016x %d\n", i, res.TraceHash, res.Steps)
+			}
 		}
 		out.Steps += res.Steps
 		out.Switches += int64(res.Switches)
@@ -263,12 +270,15 @@ func TestSim(t *testing.T) {
 			fmt.Printf("run %d steps=%d trace=%v notes=%v viol=%v\n", i, res.Steps, res.Trace, res.Notes, res.Violations)
 		}
 		// on-the-fly determinism re-check of 1% of the runs
-		if i%100 == 7 {
+		if i%100 == 7 && !res.RuntimeChoice {
 			res2 := execute(t, scn, ReplayTape(res.Tape), false)
 			out.Rechecked++
 			if res2.TraceHash != res.TraceHash {
 				out.Nondet++
 			}
+		}
+		if res.RuntimeChoice {
+			out.RuntimeChoice++
 		}
 		if len(res.Violations) == 0 {
 			continue
@@ -352,7 +362,7 @@ func TestSim(t *testing.T) {
 
 // minimise shrinks the tape of a failing run for violation v and returns the failure record.
 func minimise(t *testing.T, scn *Scenario, i int64, res *RunResult, v Violation, known []knownFinding) *failure {
-	f := &failure{Scenario: scn.Name, Property: scn.Prop, Seed: *fSeed, Run: i, Tape: res.Tape, OrigLen: len(res.Tape), Violation: v}
+	f := &failure{Scenario: scn.Name, Property: scn.Prop, Seed: *fSeed, Run: i, Tape: res.Tape, OrigLen: len(res.Tape), Violation: v, RuntimeChoice: res.RuntimeChoice}
 	if *fShrink && !strings.HasPrefix(v.Class, "harness") && v.Class != "race" {
 		f.Tape, f.ShrinkRuns = shrink(t, scn, res.Tape, v.Class, known)
 	}
